@@ -1,4 +1,4 @@
-"""X05 — integrity checks, repair functions and annotation filters of biotite.structure.
+"""X05 — integrity checks, repair functions and filters of biotite.structure.
 
 S1  TLC checks specs/X05/Integrity.tla: for every bounded input the code-shaped definitions of
     IntegrityOps (diff / where / cumsum / insert / scatter / np.split) equal the per-atom ones,
@@ -896,11 +896,11 @@ MANIFEST = {
                  "(specs/X05: per-atom definitions next to numpy-shaped ones) model-checked by TLC; every enumerated "
                  "call executed against the real functions on arrays, stacks and list arguments; recorded sessions on "
                  "live arrays and calls recorded from the repository's own tests re-computed by TLC",
-    "level_text": "TLC enumerates every call of 22 functions / pipelines on ten input families (id sequences <= 4 over "
+    "level_text": "TLC enumerates every call of 24 functions / pipelines on eleven input families (id sequences <= 4 over "
                   "5 values, arrays <= 3 over nine one-column variants of an atom, residue keys <= 4, atom names <= 3 "
                   "characters over 10 characters, element lists <= 4, 18 atom kinds, polymer fragments <= 3 atoms with 10 "
                   "argument tuples, intersections 3 x 2, walks of <= 4 atoms over 10 lattice displacements with 4 bond "
-                  "length limits, backbone walks <= 3) and proves on them that the numpy-shaped definitions equal the "
+                  "length limits, backbone walks <= 3, altloc id vectors <= 3 over 5 ids with 3 occupancy vectors) and proves on them that the numpy-shaped definitions equal the "
                   "per-atom ones and that the repair laws hold (repaired ids pass the check and are idempotent, "
                   "dropping duplicates leaves none, generated names are unique and give the element back). Every "
                   "(call, result) pair is executed against biotite on an AtomArray and an AtomArrayStack, inputs are "
@@ -908,5 +908,5 @@ MANIFEST = {
                   "validated event by event.",
     "level_note": "Bounded: exhaustive only for the small alphabets above; larger arrays (<= 14 atoms) through recorded "
                   "sessions. The synthetic CCD stands for the real one; coordinates are multiples of 1/4 A; warnings, "
-                  "altloc filters (covered elsewhere), check_in_box (not exported, broken) are not decided.",
+                  "check_in_box (not exported, broken) are not decided.",
 }
